@@ -134,6 +134,20 @@ def gen_pair(rng):
             d = rng.uniform(2.0, 3.0) * rng.choice([-1, 1])
             lat2 = max(-89.0, min(89.0, -lat1 + d))
             lon2 = wrap180(lon1 + 180.0 + rng.uniform(-0.6, 0.6))
+        elif r < 0.965:
+            # latitudes whose number of DEGREES is a multiple of pi/2 (1.5708, 3.1416, 42.4115 ...): where a value in degrees handed
+            # to a trigonometric function as if it were radians hits a zero or a pole of that function; short lines along the parallel
+            # and the meridian there
+            kind = 'deg-rad-slip-latitude'
+            k = rng.randrange(1, 58)
+            lat1 = rng.choice([-1, 1]) * (k * math.pi / 2) * (1 + rng.choice([0.0, 0.0, 1e-12, -1e-9, 1e-7]))
+            if abs(lat1) > 90:
+                continue
+            step = math.degrees(10 ** rng.uniform(math.log10(1.1e-3), 2.3) / 6.4e6)
+            if rng.random() < 0.6:
+                lat2, lon2 = lat1, wrap180(lon1 + rng.choice([-1, 1]) * step / max(0.02, math.cos(math.radians(lat1))))
+            else:
+                lat2, lon2 = max(-90.0, min(90.0, lat1 + rng.choice([-1, 1]) * step)), lon1
         else:
             kind = 'short'
             if rng.random() < 0.4:
@@ -196,6 +210,13 @@ def check_pair(p, inp, oracle=True):
         p.case('miss:' + kind, inp, True)
         p.violation('inverse-miss', 'miss', inp, {'ell_dist': s}, 'a distance in [0, 19 800 km]', call)
         return
+    # a cheap bound that needs no oracle: the geodesic between two points lies between b and a times their separation on the sphere of
+    # reduced latitudes, which differs from the separation on the sphere of geodetic latitudes by less than 0.4 % for 1/f >= 280 (the returned distance is rounded to the millimetre: 0.6 mm slack)
+    sep = sph_sep(lat1, lon1, lat2, lon2)
+    if sep * inp['a'] > 2e-3:
+        p.case('gross:' + kind, inp, True)
+        p.check(0.992 * ell.semimin * sep - 6e-4 <= s <= 1.008 * inp['a'] * sep + 6e-4, 'inverse-miss:gross-distance', 'miss', inp, {'ell_dist': s},
+                {'between_m': [0.992 * ell.semimin * sep, 1.008 * inp['a'] * sep]}, call)
     if oracle:
         # (a) follow the exact geodesic with the answer
         p.case('miss:' + kind, inp, True)
@@ -220,6 +241,21 @@ def check_pair(p, inp, oracle=True):
             p.check(err <= allow, 'inverse-reverse-azimuth' + sub, 'reverse_azimuth', inp,
                     {'azimuth2to1': a21, 'err_deg': float(err)},
                     {'azimuth2to1_mod360': float((L.az2 + 180) % 360), 'err_deg': f'<= {float(allow):.3e}'}, call)
+    # (a2) the same four numbers held in numpy scalars (float64, and values that single precision holds exactly): the number is what
+    #      counts, not the type it arrives in
+    if p.rng.random() < 0.06:
+        import numpy as np
+        ty = p.rng.choice([np.float64, np.float32])
+        vals = [ty(v) for v in (lat1, lon1, lat2, lon2)]
+        fl = [float(v) for v in vals]
+        if in_domain(dict(inp, lat1=fl[0], lon1=fl[1], lat2=fl[2], lon2=fl[3])):
+            ci = dict(inp, numpy_type=ty.__name__)
+            p.case('numpy_scalars:' + ty.__name__, ci, True)
+            calln = f'vincinv(*[numpy.{ty.__name__}(v) for v in {fl!r}], ...) vs vincinv(*{fl!r}, ...)'
+            okn, rn = p.guarded('inverse-raises', 'numpy_scalars', ci, lambda: (G.vincinv(*vals, ell), G.vincinv(*fl, ell)), calln)
+            if okn:
+                p.check(tuple(float(v) for v in rn[0]) == tuple(rn[1]), 'inverse-miss:argument-type', 'numpy_scalars', ci,
+                        [float(v) for v in rn[0]], list(rn[1]), calln)
     # (b) swap
     p.case('swap:' + kind, inp, True)
     call_b = call_str(inp, ('lat2', 'lon2', 'lat1', 'lon1'))
